@@ -28,7 +28,11 @@ DiskType(ty) == IF ty = "f64" THEN "f32" ELSE ty
 OffOf(p, hdr, tr) == IF tr THEN p[1] + hdr[1] * (p[2] + hdr[2] * p[3])
                      ELSE p[3] + hdr[1] * (p[2] + hdr[2] * p[1])
 
+\* e.dt is the element type the data_type option denotes, e.sp the way the call spelled it ("none": option not given);
+\* the spelling does not enter the law
+Spellings == {"none", "type", "dtype", "name", "code", "char", "alias", "builtin"}
 WriteOK(e) ==
+    /\ e.sp \in Spellings /\ (e.sp = "none") = (e.dt = "none") /\ (e.sp = "builtin" => e.dt = "f64")
     /\ e.valid                                              \* the bytes are a valid file of the extension's format
     /\ e.hdr = (IF e.tr THEN e.shape ELSE Rev(e.shape))
     /\ e.mode = DiskType(IF e.dt = "none" THEN e.dtype ELSE e.dt)
